@@ -89,3 +89,57 @@ def attribute_validator(fn, args):
         return _wrap(fn(**args))
     finally:
         ErrorHandler.format_error = staticmethod(real)
+
+
+# ---------------------------------------------------------------------------------------------- C09.tag_deepcopy
+_clause_errors = {}
+
+
+def _clause_error(clause, message):
+    """an AssertionError whose CLASS NAME is the clause (rt.conc records only the exception's type name of an escaping
+    exception, so the type name has to carry which clause broke)"""
+    name = clause.replace(".", "_")
+    if name not in _clause_errors:
+        _clause_errors[name] = type(name, (AssertionError,), {})
+    return _clause_errors[name](message)
+
+
+def tag_deepcopy(fn, args):
+    """HedTag.__deepcopy__(self, memo) on a real tag.  To be used with bounded={'share': True, ...}: the clauses of
+    C09.tag_deepcopy speak about object identity, so the harness must not deep-copy the arguments.  With shared arguments
+    `old(memo)` is the memo AFTER the call (same dict object) and the clauses guarded by `id(self) not in old(memo)` hold
+    vacuously; therefore every clause is re-checked here against a snapshot of the memo taken at entry, with real object
+    identity instead of fresh(x) == (x is not None).  A broken clause escapes as an AssertionError subclass named after
+    the clause: rt.conc reports it as a failure ('raises:<clause> escapes') together with the input."""
+    from rt import c09_struct as S
+    me, memo = args["self"], args["memo"]
+    entry = dict(memo)
+    given = S.reach(*[v for v in entry.values()])          # node objects the caller supplied through the memo
+    result = fn(me, memo)
+    if id(me) in entry:
+        if result is not entry[id(me)]:
+            raise _clause_error("C09.copy.memoised", "memo entry for the tag not returned")
+        return result
+    if result is None or result is me or type(result) is not type(me):
+        raise _clause_error("C09.copy.is_a_new_object", "copy is the tag itself (or not a tag)")
+    if memo.get(id(me)) is not result:
+        raise _clause_error("C09.copy.registered_in_memo", "copy not registered in memo under id(self)")
+    if (result._expandable is None) != (me._expandable is None) or (result._parent is None) != (me._parent is None):
+        raise _clause_error("C09.copy.none_stays_none", "None-ness of _expandable/_parent differs")
+    if result._expandable is not None and result._expandable is me._expandable:
+        raise _clause_error("C09.copy.expansion_content_not_shared",
+                            "copy shares _expandable (the cached expansion group) with the original")
+    if result._parent is not None and result._parent is me._parent:
+        raise _clause_error("C09.copy.parent_not_shared", "copy shares _parent with the original")
+    if (result._expanded != me._expanded or result._hed_string != me._hed_string or result._namespace != me._namespace
+            or result._extension_value != me._extension_value or str(result) != str(me)):
+        raise _clause_error("C09.copy.text_and_flag_kept", "text or expansion flag differs")
+    mine = S.reach(me)
+    shared = [n for i, n in S.reach(result).items() if i in mine and i not in given]
+    if shared:
+        # deeper than the two attributes: e.g. the content group inside the cached expansion, or a sibling in the parent
+        in_cache = set() if me._expandable is None else {id(n) for n in S.visible(me._expandable)}
+        raise _clause_error("C09.copy.expansion_content_not_shared" if any(id(n) in in_cache for n in shared)
+                            else "C09.copy.parent_not_shared",
+                            "copy shares node objects with the original: " + ", ".join(S.describe(n) for n in shared[:3]))
+    return result
